@@ -596,11 +596,14 @@ def run_schema(schema: dict, rng, exercise: int = 40) -> SchemaRun:
 
 
 def static_names_oracle(sr: SchemaRun, schema: dict):
+    partial = sr.build_error is not None
     for i, rec in enumerate(sr.programs):
         for fn, n in unresolved_names(rec):
             sr.finding("static-unresolved-name", f"generated function {fn} loads global {n!r} which is neither in its globals nor a builtin",
                        program=rec["code"], name=n)
         for ch in unresolved_chains(rec):
+            if partial and ch.split(".")[0] == schema["module"].split(".")[0]:
+                continue    # the module did not finish executing: its own attributes are not all bound yet
             sr.finding("static-unresolved-attr", f"generated code evaluates {ch} which does not exist", program=rec["code"], name=ch)
         for ch in shadowed_module_roots(rec, {schema["module"].split(".")[0]}):
             sr.finding("static-shadowed-module", f"generated code evaluates {ch}", program=rec["code"], name=ch)
@@ -754,9 +757,8 @@ def classify(f: dict, d: dict, module: str, src: str = "") -> dict:
         prog = f.get("program") or ""
         if prog and name and _only_in_omit_default_tuple(prog, name):
             return {"kind": "unresolved-name", "cause": "omit-default-tuple-repr"}
-        if any(getattr(c, "__supertype__", None) is not None and getattr(c, "__name__", None) == name for c in classes) \
-                and prog and f"is {name}:" in prog:
-            return {"kind": "unresolved-name", "cause": "newtype-in-union-bare-name"}
+        if prog and name and _only_in_union_type_test(prog, name):
+            return {"kind": "unresolved-name", "cause": "union-member-bare-name"}
         if name == types.MappingProxyType.__qualname__ and types.MappingProxyType.__module__ == "builtins" and not hasattr(builtins, name):
             cause = "builtins-module-class"
         else:
@@ -775,6 +777,18 @@ def classify(f: dict, d: dict, module: str, src: str = "") -> dict:
             cause = "omit-default-tuple-repr"
         return {"kind": "generated-syntax-error", "cause": cause}
     return {"kind": kind, "cause": "other"}
+
+
+def _only_in_union_type_test(prog: str, name: str) -> bool:
+    """every use of the bare name is the type test a union unpacker emits for a member"""
+    import re
+    hit = False
+    for ln in prog.splitlines():
+        if re.search(r"(?<![\w.])" + re.escape(name) + r"\b", ln):
+            if not re.fullmatch(r"if (__value_type|type\(value\)) is " + re.escape(name) + r":", ln.strip()):
+                return False
+            hit = True
+    return hit
 
 
 def _only_in_omit_default_tuple(prog: str, name: str) -> bool:
